@@ -1,5 +1,6 @@
 (* C18 oracle. One request per line, one reply line.
-   R <migs> ; <fuel> <enabled hex> <cancel|-> ; <cur hex> <last hex> <inter|-> <db>
+   R <migs> ; <fuel> <enabled hex> <cancel|-> <ioerror|-> ; <cur hex> <last hex> <inter|-> <db>
+       (cancel / ioerror: after that many writes the context is cancelled / the store fails once)
        migs  = m|o : total : mode(s|n) : failat : yieldat   joined by ','
        inter = i:t joined by ','      db = progress per migration joined by ','
      -> <result> | <cur> <last> <inter> <db> | <log> | <trace states joined by '~'> | <aad t/f>
@@ -73,8 +74,9 @@ let do_r rest =
   | [migs; cfg; st] ->
     let es = parse_migs migs in
     (match words cfg, words st with
-     | [fuel; en; cancel], [cur; last; inter; db] ->
-       let clk = if cancel = "-" then None else Some (nat_of_int (ios cancel)) in
+     | [fuel; en; cancel; fault], [cur; last; inter; db] ->
+       let ck x = if x = "-" then None else Some (nat_of_int (ios x)) in
+       let clk = (ck cancel, ck fault) in
        let inter = List.map (fun e -> match String.split_on_char ':' e with
          | [i; t] -> (nat_of_int (ios i), n_of_int (ios t)) | _ -> failwith "inter") (split ',' inter) in
        let s = { cur = n_of_hex cur; last = n_of_hex last; inter = inter;
